@@ -177,6 +177,17 @@ func (h *scriptedHost) waitEnv(d time.Duration, ok func(protocol.Envelope) bool)
 		if time.Now().After(deadline) {
 			return protocol.Envelope{}, false
 		}
+		if h.child != nil {
+			// a receiver that has exited will not answer any more
+			if _, gone := h.child.wait(0); gone {
+				for _, e := range h.ws.snapshot() {
+					if ok(e) {
+						return e, true
+					}
+				}
+				return protocol.Envelope{}, false
+			}
+		}
 		time.Sleep(10 * time.Millisecond)
 	}
 }
@@ -190,16 +201,38 @@ func (h *scriptedHost) close() {
 	}
 }
 
+// scriptedRootName / scriptedStdin let a driver change what the scripted host offers and what the
+// receiver's user types.
+var (
+	scriptedRootName = "selection"
+	scriptedStdin    = "y\n"
+)
+
 // startScriptedHost creates a session, starts a real `thru join` against it, plays the host's part
 // of the signaling up to the exchange of candidates and returns with the receiver's candidates.
 func startScriptedHost(srvURL, thruBin, work string, parallelConns int, joinExtra []string) (*scriptedHost, error) {
+	return startScriptedHostOut(srvURL, thruBin, filepath.Join(work, "out"), filepath.Join(work, "join.trace"), parallelConns, joinExtra)
+}
+
+// startScriptedHostIn: the receiver writes into outDir (which may already exist); its trace goes to a temp file.
+func startScriptedHostIn(srvURL, thruBin, outDir string) (*scriptedHost, error) {
+	tf, err := os.CreateTemp("", "vh-join-*.trace")
+	if err != nil {
+		return nil, err
+	}
+	tf.Close()
+	defer os.Remove(tf.Name())
+	return startScriptedHostOut(srvURL, thruBin, outDir, tf.Name(), 1, nil)
+}
+
+func startScriptedHostOut(srvURL, thruBin, outDir, tracePath string, parallelConns int, joinExtra []string) (*scriptedHost, error) {
 	ctx, cancel := context.WithTimeout(context.Background(), 10*time.Second)
 	defer cancel()
 	sid, code, _, err := clienthttp.CreateSession(ctx, srvURL, 1)
 	if err != nil {
 		return nil, fmt.Errorf("create session: %w", err)
 	}
-	h := &scriptedHost{srvURL: srvURL, code: code, sessionID: sid, peerID: "hostpeer01", outDir: filepath.Join(work, "out")}
+	h := &scriptedHost{srvURL: srvURL, code: code, sessionID: sid, peerID: "hostpeer01", outDir: outDir}
 	wsURL, err := app.VerifBuildWebSocketURL(srvURL, code, h.peerID, "sender", 1)
 	if err != nil {
 		return nil, err
@@ -211,7 +244,7 @@ func startScriptedHost(srvURL, thruBin, work string, parallelConns int, joinExtr
 	h.ws = ws
 	_ = os.MkdirAll(h.outDir, 0o755)
 	args := append([]string{"join", code, "--out", h.outDir, "--server-url", srvURL, "--stun-server", "stun:127.0.0.1:9"}, joinExtra...)
-	child, err := startChild(thruBin, args, filepath.Join(work, "join.trace"), nil, "y\n")
+	child, err := startChild(thruBin, args, tracePath, nil, scriptedStdin)
 	if err != nil {
 		h.close()
 		return nil, err
@@ -233,7 +266,7 @@ func startScriptedHost(srvURL, thruBin, work string, parallelConns int, joinExtr
 	h.recvID = pj.Peer.PeerID
 	const manifestID = "verif-manifest-0001"
 	if err := h.send(protocol.TypeManifestOffer, h.recvID, protocol.ManifestOffer{Summary: protocol.ManifestSummary{
-		ManifestID: manifestID, TotalBytes: 5, FileCount: 1, FolderCount: 0, RootName: "selection"}}); err != nil {
+		ManifestID: manifestID, TotalBytes: 5, FileCount: 1, FolderCount: 0, RootName: scriptedRootName}}); err != nil {
 		h.close()
 		return nil, err
 	}
